@@ -135,8 +135,9 @@ def parse_output(text, harnesses):
             r['checks'] = [int(mchk.group(1)), int(mchk.group(2))]
         r['stubs'] = re.findall(r'- Stub: (.*)', blk)
         fc = []
-        for mm in re.finditer(r'Failed Checks: (.*)\n\s*File: "([^"]+)", line (\d+), in (\S+)', blk):
-            fc.append({'check': mm.group(1), 'file': mm.group(2), 'line': int(mm.group(3)), 'in': mm.group(4)})
+        # the check text may span several lines (rustfmt-wrapped assert! conditions)
+        for mm in re.finditer(r'Failed Checks: ((?:(?!Failed Checks: ).)*?)\n\s*File: "([^"]+)", line (\d+), in (\S+)', blk, re.S):
+            fc.append({'check': ' '.join(mm.group(1).split()), 'file': mm.group(2), 'line': int(mm.group(3)), 'in': mm.group(4)})
         r['failed_checks'] = fc
         if r['status'] == 'failed' and not fc and 'unwinding assertion' in blk:
             r['failed_checks'] = [{'check': 'unwinding assertion', 'file': '', 'line': 0, 'in': ''}]
